@@ -166,6 +166,19 @@ def _gen_for(stream, seed):
             small["emf"] = big["emf"]
             small["impact"] = {k: v * rng.choice([1e-6, 3e-7]) for k, v in big["impact"].items()}
             small["house"] = None
+        r3 = random.Random(seed ^ 0x7157)
+        if sc["events"] and r3.random() < 0.2:
+            # two events identical in every respect (same damage, same dates, no name)
+            sc["events"].append(copy.deepcopy(sc["events"][0]))
+        rebs_ = [ev for ev in sc["events"] if ev["type"] == "rebuild"]
+        if rebs_ and r3.random() < 0.3:
+            # an industry of a rebuilding sector is itself damaged by the event it has to rebuild
+            regs_, secs_, _c = scen.labels(sc["table"])
+            ev_ = rebs_[0]
+            rs_ = next(iter(ev_["reb_sectors"]))
+            key_ = f"{r3.choice(regs_)}|{rs_}"
+            if key_ not in ev_["impact"]:
+                ev_["impact"][key_] = min(ev_["impact"].values()) * 0.05
         sc["stream"] = "multi"
         return sc
     if stream == "early":
